@@ -964,11 +964,14 @@ mod n {
     #[test]
     fn n_c05_ids_local() {
         let files = project_files();
-        drive("C05.ids", "all 12 shipped projects, as shipped and with right fins / left fins / overhangs / all three on every window, x 15 block kinds (14 library kinds and WINDOW): a copy of the first / middle / last block of the kind is added under a new name right before the original (an unrelated definition; a twin window also gets an overhang); every element of the original model keeps its id", |c| {
+        drive("C05.ids", "all 12 shipped projects, as shipped and with right fins / left fins / overhangs / all three on every window, x 15 block kinds (14 library kinds and WINDOW): a copy of the first / middle / last block of the kind - exact, or with all its scalar numbers changed - is added under a new name right before the original (an unrelated definition; a twin window also gets an overhang); every element of the original model keeps its id", |c| {
             let k = c.pick(files.len());
             let protections = c.pick(5);
             let kind = c.of(&TWIN_KINDS);
             let which = c.pick(3);
+            // the added definition is an exact copy under a new name, or a copy whose numbers all differ (another
+            // thickness, absorptance, schedule value ...): unrelated either way
+            let other_numbers = c.flag();
             let fname = files[k].file_name().unwrap().to_string_lossy().to_string();
             let text = with_window_protections(&std::fs::read_to_string(&files[k]).unwrap(), protections);
             let defs = definitions(&text);
@@ -977,7 +980,7 @@ mod n {
                 return;
             }
             let (at, name, _) = of_kind[[0, of_kind.len() / 2, of_kind.len() - 1][which]];
-            c.note(format!("{} (window protections {}): twin of {} \"{}\"", fname, protections, kind, name));
+            c.note(format!("{} (window protections {}): twin of {} \"{}\"{}", fname, protections, kind, name, if other_numbers { " with other numbers" } else { "" }));
             let start = text[..*at].rfind('\n').map(|i| i + 1).unwrap_or(0);
             let mut end = start;
             let mut last_line_start = start;
@@ -989,6 +992,24 @@ mod n {
                 }
             }
             let mut twin = text[start..last_line_start].replacen(&format!("\"{}\"", name), &format!("\"{}_twin\"", name), 1);
+            if other_numbers && kind != "WINDOW" && kind != "POLYGON" {
+                // every scalar number of the copy: v -> 1.5 v + 0.25 (lists and names stay)
+                twin = twin
+                    .split_inclusive('\n')
+                    .enumerate()
+                    .map(|(i, line)| {
+                        let body = line.trim_end_matches(&['\r', '\n'][..]);
+                        let eol = &line[body.len()..];
+                        match (i, body.split_once('=')) {
+                            (i, Some((k, v))) if i > 0 => match v.trim().parse::<f32>() {
+                                Ok(x) if x.is_finite() && v.contains('.') => format!("{}= {}{}", k, x * 1.5 + 0.25, eol),
+                                _ => line.to_string(),
+                            },
+                            _ => line.to_string(),
+                        }
+                    })
+                    .collect();
+            }
             if kind == "WINDOW" {
                 twin.push_str("         OVERHANG-D = 0.8\n         OVERHANG-W = 2\n");
             }
@@ -1010,7 +1031,7 @@ mod n {
             c.check("C05.ids.protections_present", protections == 0 || base.windows.is_empty() || base.shades.iter().any(|s| s.name.ends_with("_fin") || s.name.ends_with("_overhang")), || format!("{}: no fin / overhang shade was generated for protections {}: {:?}", fname, protections, base.shades.iter().map(|s| s.name.clone()).take(5).collect::<Vec<_>>()));
             let moved: Vec<String> = a.iter().filter(|(coll, n, id)| !b.iter().any(|(c2, n2, id2)| c2 == coll && n2 == n && id2 == id)).map(|(coll, n, _)| format!("{} {}", coll, n)).collect();
             c.check("C05.ids.local", moved.is_empty(), || format!("{} (window protections {}): adding an unrelated {} changed the id of (or lost) {} elements, e.g. {:?}", fname, protections, kind, moved.len(), &moved[..moved.len().min(3)]));
-            c.nontrivial(format!("{} {} {}", fname, kind, protections));
+            c.nontrivial(format!("{} {} {} {}", fname, kind, protections, other_numbers));
             c.sample(|| format!("{}: twin of {} \"{}\": {} -> {} elements", fname, kind, name, a.len(), b.len()));
         });
     }
